@@ -42,13 +42,14 @@ lint.aggregate.violations := aggregate_report if {
 	"aggregate" in input.regal.operations
 }
 
-_file_name_relative_to_root(filename, "/") := trim_prefix(filename, "/")
+# the root is normalized to end with a separator, just as FilterIgnoredPaths does on the Go side
+_file_name_relative_to_root(filename, root) := trim_prefix(filename, root) if endswith(root, "/")
 
 _file_name_relative_to_root(filename, root) := trim_prefix(
 	filename,
 	concat("", [root, "/"]),
 ) if {
-	root != "/"
+	not endswith(root, "/")
 }
 
 _rules_to_run[category] contains title if {
